@@ -384,7 +384,7 @@ func inStep(i, start, end, step int) bool {
 	if 0 < step {
 		return start <= i && i <= end && (i-start)%step == 0
 	}
-	return end <= i && i <= start && (i-end)%-step == 0
+	return end <= i && i <= start && (start-i)%-step == 0
 }
 
 func (f Slice) startEndStep(size int) (start, end, step int) {
